@@ -14,6 +14,7 @@ func init() {
 			a.c18Events()
 			a.c18SendDispatch("P.send-dispatch")
 			a.c18Resend()
+			a.endForgetsLastText("P.resend")
 			a.tlvLoopComplete("S.tlv-loop")
 		})
 }
@@ -76,6 +77,28 @@ func (a *An) c18Events() {
 					}
 				}
 			}
+		}
+		// and it is raised on every path on which this function changed the state (also when a later step fails)
+		for _, st := range a.DirectStoresTo(fld) {
+			if st.Parent() != cs.Parent() {
+				continue
+			}
+			always := true
+			for _, r := range a.returnsOf(cs.Parent()) {
+				if !canReach(st, r) {
+					continue
+				}
+				_, isDefer := cs.(*ssa.Defer)
+				if isDefer && instrDominates(cs, r) {
+					continue
+				}
+				if !isDefer && !reachesAvoiding(st, r, []ssa.Instruction{cs}, nil) {
+					continue
+				}
+				always = false
+			}
+			R.Check(always, rule, fn+"|always-raised|"+e.event, "whenever the message state was changed the event call is executed before the function returns, on error paths too", a.C.InstrPos(cs),
+				"a return is reachable after the state change without passing the event call: the state changes silently (a later GoneInsecure has no matching GoneSecure)")
 		}
 		R.Check(okBefore, rule, fn+"|previous-state|"+e.event, "the event condition uses the state loaded before the transition", a.C.InstrPos(cs), "condition "+e.cond+" is not computed from a load that precedes the store of the new state")
 	}
